@@ -67,6 +67,12 @@ namespace randomx {
 #if defined(__aarch64__) || defined(__riscv)
 		memcpy(reg.f, config.eMask, sizeof(config.eMask));
 #endif
+#ifdef RANDOMX_VERIF
+		if (unsigned verifLimit = randomx_verif::hooks().iterLimit) {
+			compiler.getProgramFunc()(reg, mem, scratchpad, verifLimit);
+			return;
+		}
+#endif
 		compiler.getProgramFunc()(reg, mem, scratchpad, RANDOMX_PROGRAM_ITERATIONS);
 	}
 
